@@ -41,6 +41,9 @@ REQUIRED_THEOREMS = [
     "kwargs_order_independent",
     "opreq_key_faithful", "bcs_key_faithful", "grid_key_faithful_mutable",
     "helpers_read_current_content", "helpers_read_current_content_fixE", "pde_rate_jit_stale_after_write",
+    "cache_sound_of_faithful_on", "events_sound_of_faithful_on", "grid_obs_of_key_eq", "arg_obs_of_key_eq",
+    "kwargs_obs_of_key_eq", "opreq_obs_of_key_eq", "make_operator_cache_sound", "make_operator_events_sound",
+    "kwargs_method_cache_sound",
 ]
 RULE = ("pairs: a seed-derived base request (grid of every class, operator, per-side boundary conditions of every "
         "constant class incl. normal/mixed/periodic, dtype, kwargs) and a variant that changes one or two attributes "
